@@ -1,16 +1,128 @@
 /-
 C07 — conditional writes are atomic under concurrency. Property theorems.
 
+ (i)   the sequential specification `S3.step` (what a conditional write means, one at a time):
+       `cond_write_spec` (all states), `inm_at_most_one_winner`, `inm_puts_exactly_first`
+       (all reachable states) — proofs in Pithos.Lemmas.CondWrite; with the negation witness
+       `inm_refused_on_absent_key_before_fix` for the code before the repair 373419f;
  (ii)  `atomic_ops_linearizable`, `checkCert_sound` — linearizability w.r.t. an arbitrary sequential
        specification (Pithos.Model.Linearize); the premise "every storage call takes effect atomically"
-       is, for SQLite, the regenerated fact table `Pithos.Gen.TxFacts` (T1) — obligations below.
+       is, for SQLite, the regenerated fact table `Pithos.Gen.TxFacts` (T1) — obligations below;
+       `linearizable_inm_at_most_one_winner` joins (i) and (ii);
+ (iii) `cas_no_lost_update` on `Pithos.MetaFine`, the statement-level model of the optimistic-lock
+       protocol, for arbitrary interleavings (what matters off SQLite) — proofs in
+       Pithos.Lemmas.MetaFine. The append theorems of the same model are in Props/C12Concurrent.lean.
 -/
 import Pithos.Model.Linearize
 import Pithos.Lemmas.Linearize
 import Pithos.Gen.TxFacts
+import Pithos.Model.S3
+import Pithos.Lemmas.CondWrite
+import Pithos.Model.MetaFine
+import Pithos.Lemmas.MetaFine
 
 namespace Pithos.C07
 open Pithos.Lin Pithos.Gen.TxFacts
+
+-- ---------------------------------------------------------------- (i) the sequential specification
+
+section Spec
+open Pithos.S3
+
+/-- **cond_write_spec** (every state, every quirk setting). An If-Match put, complete or delete
+succeeds only if the key's current object has that ETag; an If-None-Match put or complete succeeds
+only if the key holds no object; a conditional write that fails changes nothing but the clock. -/
+theorem cond_write_spec (q : Quirks) (s : State) (b k : String) :
+    (∀ body o inm e vid et, (step q s (.put b k body o inm (.etag e))).2 = .wrote vid et →
+      ∃ bk r, findBucket s b = some bk ∧ latestRow bk k = some r ∧ r.dm = false ∧ r.etag = e) ∧
+    (∀ uid declared inm e vid et, (step q s (.complete b k uid declared inm (.etag e))).2 = .wrote vid et →
+      ∃ bk r, findBucket s b = some bk ∧ latestRow bk k = some r ∧ r.dm = false ∧ r.etag = e) ∧
+    (∀ e vid dm, (step q s (.del b k none (.etag e))).2 = .deleted vid dm →
+      ∃ bk r, findBucket s b = some bk ∧ latestRow bk k = some r ∧ r.dm = false ∧ r.etag = e) ∧
+    (∀ body o im vid et, (step q s (.put b k body o true im)).2 = .wrote vid et → present s b k = false) ∧
+    (∀ uid declared im vid et, (step q s (.complete b k uid declared true im)).2 = .wrote vid et → present s b k = false) ∧
+    (∀ body o inm im e, (step q s (.put b k body o inm im)).2 = .err e →
+      (step q s (.put b k body o inm im)).1 = { s with clock := s.clock + 1 }) ∧
+    (∀ uid declared inm im e, (step q s (.complete b k uid declared inm im)).2 = .err e →
+      (step q s (.complete b k uid declared inm im)).1 = { s with clock := s.clock + 1 }) :=
+  ⟨fun body o inm e vid et h => put_if_match_spec q s b k body o inm e vid et h,
+   fun uid declared inm e vid et h => complete_if_match_spec q s b k uid declared inm e vid et h,
+   fun e vid dm h => del_if_match_spec q s b k e vid dm h,
+   fun body o im vid et h => put_inm_spec q s b k body o im vid et h,
+   fun uid declared im vid et h => complete_inm_spec q s b k uid declared im vid et h,
+   fun body o inm im e h => put_err_state q s b k body o inm im e h,
+   fun uid declared inm im e h => complete_err_state q s b k uid declared inm im e h⟩
+
+/-- Well-formedness (distinct row ids below the counter, at most one latest row per key) holds in
+every reachable state: it is preserved by EVERY operation of the specification. -/
+theorem wf_reachable (q : Quirks) (ops : List Op) : WF (run q {} ops).1 := S3.wf_reachable q ops
+
+/-- **inm_at_most_one_winner.** From any well-formed state, among ANY sequence of If-None-Match
+writes (puts and completes, in any order, with any further If-Match argument) to one key at most
+one succeeds, and after a success every later one fails. -/
+theorem inm_at_most_one_winner (q : Quirks) (s : State) (b k : String) (ops : List Op) (hwf : WF s)
+    (hops : ∀ op ∈ ops, IsInmWrite b k op) :
+    ((run q s ops).2.filter Out.isWrote).length ≤ 1 ∧
+    (run q s ops).2.Pairwise (fun o o' => o.isWrote = true → o'.isWrote = false) :=
+  ⟨S3.inm_at_most_one_winner q s b k ops hwf hops, S3.inm_winner_then_all_fail q s b k ops hwf hops⟩
+
+/-- **inm_puts_exactly_first** — full strength, the code since the repair 373419f. In EVERY
+reachable state (after any history `pre` from the empty store, whatever versioning modes, delete
+markers and null versions it left behind), on an absent key of an existing bucket, of any non-empty
+sequence of If-None-Match puts exactly the first succeeds and all others are refused. -/
+theorem inm_puts_exactly_first (q : Quirks) (pre : List Op) (b k : String) (bodies : List (Bytes × WriteOpts))
+    (hb : (findBucket (run q {} pre).1 b).isSome = true) (ha : present (run q {} pre).1 b k = false)
+    (hne : bodies ≠ []) :
+    (run q (run q {} pre).1 (bodies.map fun (body, o) => Op.put b k body o true .none)).2
+      = .wrote (if ((findBucket (run q {} pre).1 b).map (·.ver)) = some .enabled
+                then some (run q {} pre).1.nextVid else none)
+            (singleETag (bodies.head hne).1)
+          :: List.replicate (bodies.length - 1) (.err .preconditionFailed) :=
+  S3.inm_puts_exactly_first_reachable q pre b k bodies hb ha hne
+
+/-- The same from an arbitrary state, with the two facts it rests on as explicit hypotheses:
+well-formedness and "no delete marker is a null version" — both are invariants of every operation
+(`wf_reachable`, `markers_versioned_reachable`). -/
+theorem inm_puts_exactly_first_of_invariants (q : Quirks) (s : State) (b k : String) (bodies : List (Bytes × WriteOpts))
+    (hwf : WF s) (hb : (findBucket s b).isSome = true) (ha : present s b k = false)
+    (hm : NoNullMarker s b k) (hne : bodies ≠ []) :
+    (run q s (bodies.map fun (body, o) => Op.put b k body o true .none)).2
+      = .wrote (if ((findBucket s b).map (·.ver)) = some .enabled then some s.nextVid else none)
+            (singleETag (bodies.head hne).1)
+          :: List.replicate (bodies.length - 1) (.err .preconditionFailed) :=
+  S3.inm_puts_exactly_first q s b k bodies hwf hb ha hm hne
+
+theorem markers_versioned_reachable (q : Quirks) (ops : List Op) : MarkersVersioned (run q {} ops).1 :=
+  S3.mv_reachable q ops
+
+/-- Negation witness for the code BEFORE the repair 373419f (`putRowAsIs`: the write path with the
+old test "a null version of the key exists"): a well-formed state in which the key is absent — a
+delete marker is current, a null version lies underneath, the bucket is suspended — where the old
+path refused an If-None-Match write (zero winners for any number of racers) and the repaired one
+accepts it. The state is reachable: put; enable versioning; delete; suspend versioning. Replayed
+on the implementation by directed histories 6/14/22 of c07.go (finding
+`C07.inm.refused-on-absent-key-hidden-null-version`, fixed). -/
+theorem inm_refused_on_absent_key_before_fix :
+    present hiddenNullState "b" "k" = false ∧
+    (putRowAsIs Quirks.code hiddenNullState hiddenNullBucket "k" { parts := [[2]], etag := singleETag [2] } true .none).toBool
+      = false ∧
+    (putRow Quirks.code hiddenNullState hiddenNullBucket "k" { parts := [[2]], etag := singleETag [2] } true .none).toBool
+      = true ∧
+    ((run Quirks.code {} [.mkb "b", .put "b" "k" [1] {} false .none, .setVer "b" .enabled,
+        .del "b" "k" none .none, .setVer "b" .suspended]).1.buckets.map (fun bk => (bk.ver, bk.rows.map fun r => (r.vid, r.dm, r.latest))))
+      = [(Versioning.suspended, [(none, false, false), (some 0, true, true)])] := by
+  decide
+
+/-- Non-vacuity and the repaired behaviour on that very history: the first If-None-Match put wins,
+the second is refused. -/
+example :
+    (run Quirks.code {} [.mkb "b", .put "b" "k" [1] {} false .none, .setVer "b" .enabled,
+      .del "b" "k" none .none, .setVer "b" .suspended, .put "b" "k" [2] {} true .none,
+      .put "b" "k" [3] {} true .none]).2.map Out.isWrote
+      = [false, true, false, false, false, true, false] := by
+  decide
+
+end Spec
 
 -- ---------------------------------------------------------------- (ii) the premise, from the current sources
 
@@ -86,5 +198,93 @@ example :
     checkCert step agree 0 [⟨1, 4, 7, 9⟩, ⟨2, 3, 9, 0⟩] [0, 1] = false ∧
     checkCert step agree 0 [⟨1, 2, 7, 9⟩, ⟨3, 4, 9, 0⟩] [1, 0] = false := by
   decide
+
+-- ---------------------------------------------------------------- (i)+(ii): linearizable ⇒ one winner
+
+section Join
+open Pithos.S3
+
+/-- Observation of a recorded call for the winner count: did it succeed? -/
+def wroteAgree (o : S3.Out) (b : Bool) : Bool := o.isWrote == b
+
+theorem legal_obs_eq_run (q : Quirks) (s : State) (lin : List (Ev Op Bool))
+    (h : legalB (step q) wroteAgree s lin = true) :
+    lin.map (·.obs) = (run q s (lin.map (·.op))).2.map Out.isWrote := by
+  induction lin generalizing s with
+  | nil => simp [run]
+  | cons e es ih =>
+    simp only [legalB, Bool.and_eq_true] at h
+    have h1 : (step q s e.op).2.isWrote = e.obs := by simpa [wroteAgree] using h.1
+    have := ih (step q s e.op).1 h.2
+    simp only [List.map_cons, run]
+    rw [this, h1]
+
+/-- **linearizable_inm_at_most_one_winner.** A concurrent history that consists of If-None-Match
+writes to one key and is linearizable with respect to the specification from a reachable
+(well-formed) state has at most one successful call — whatever the interleaving was. Together with
+`atomic_ops_linearizable` and the T1 facts this is the property's first sentence for SQLite; the
+driver establishes the premise `Linearizable` for each recorded history (`checkCert_sound`). -/
+theorem linearizable_inm_at_most_one_winner (q : Quirks) (s : State) (b k : String) (h : List (Ev Op Bool))
+    (hwf : WF s) (hops : ∀ e ∈ h, IsInmWrite b k e.op)
+    (hlin : Linearizable (step q) wroteAgree s h) :
+    (h.filter (·.obs)).length ≤ 1 := by
+  obtain ⟨lin, hperm, _, hlegal⟩ := hlin
+  have hobs := legal_obs_eq_run q s lin hlegal
+  have hops' : ∀ op ∈ lin.map (·.op), IsInmWrite b k op := by
+    intro op hop
+    obtain ⟨e, he, rfl⟩ := List.mem_map.1 hop
+    exact hops e (hperm.subset he)
+  have hw := S3.inm_at_most_one_winner q s b k (lin.map (·.op)) hwf hops'
+  have hcount : (h.filter (·.obs)).length = (lin.filter (·.obs)).length := (hperm.filter _).length_eq.symm
+  have hmap : (lin.filter (·.obs)).length = ((lin.map (·.obs)).filter id).length := by
+    rw [List.filter_map]; simp [Function.comp_def]
+  have hmap2 : (((run q s (lin.map (·.op))).2.map Out.isWrote).filter id).length
+      = ((run q s (lin.map (·.op))).2.filter Out.isWrote).length := by
+    rw [List.filter_map]; simp [Function.comp_def]
+  rw [hcount, hmap, hobs, hmap2]
+  exact hw
+
+end Join
+
+-- ---------------------------------------------------------------- (iii) the optimistic-lock protocol, statement level
+
+section Fine
+open Pithos.MetaFine
+
+/-- **cas_no_lost_update.** In `MetaFine`, for ARBITRARY interleavings of the reads and guarded
+commits of any number of writers (puts/completes, deletes, appends; conditional or not): every
+committed If-Match put/complete and If-Match delete replaced exactly a row with the parts (= ETag)
+it named — the version compare-and-swap rules out that the row changed between the writer's read
+and its commit; a committed If-None-Match writer replaced nothing (the unique index on the latest
+row). So no acknowledged write is overwritten by a conditional writer that saw an older ETag. -/
+theorem cas_no_lost_update (sz : PartId → Nat) (row : Option Cell) (nextId : Nat) (progs : List Prog) (sched : List Nat)
+    (hid : ∀ c, row = some c → c.id < nextId) :
+    ∀ cm ∈ (exec sz (init row nextId progs) sched).log,
+      (∀ new e, progs[cm.tid]? = some (.put new (.im e)) → ∃ b, cm.before = some b ∧ b.parts = e) ∧
+      (∀ e, progs[cm.tid]? = some (.del (some e)) → ∃ b, cm.before = some b ∧ b.parts = e) ∧
+      (∀ new, progs[cm.tid]? = some (.put new .inm) → cm.before = none) :=
+  MetaFine.cas_no_lost_update sz row nextId progs sched hid
+
+/-- The row's history is exactly the chain of logged commits (nothing changes it silently), every
+writer commits at most once, and an acknowledged put is in the log with its content. -/
+theorem commits_form_the_row_history (sz : PartId → Nat) (row : Option Cell) (nextId : Nat) (progs : List Prog) (sched : List Nat) :
+    Chain row (exec sz (init row nextId progs) sched).log (exec sz (init row nextId progs) sched).db.row ∧
+    ((exec sz (init row nextId progs) sched).log.map (·.tid)).Nodup ∧
+    (∀ (i : Nat) (t : Thread) (new : List PartId) (c : Cond),
+      (exec sz (init row nextId progs) sched).threads[i]? = some t → t.prog = .put new c → t.loc = .done .ok →
+      ∃ cm ∈ (exec sz (init row nextId progs) sched).log, cm.tid = i ∧ ∃ a, cm.after = some a ∧ a.parts = new) :=
+  ⟨MetaFine.log_chain sz row nextId progs sched, MetaFine.commit_once sz row nextId progs sched,
+   fun i t new c ht hp hl => MetaFine.ack_put_committed sz row nextId progs sched i t new c ht hp hl⟩
+
+/-- Non-vacuity: two writers that both read the same version and both name its ETag; whatever the
+interleaving of their commits, exactly one is acknowledged (here: the second one to commit loses). -/
+example :
+    (exec (fun _ => 1) (init (some ⟨0, 1, [1]⟩) 1 [.put [5] (.im [1]), .put [6] (.im [1])]) [0, 1, 1, 0]).threads.map (·.loc)
+      = [.done .precondition, .done .ok] ∧
+    (exec (fun _ => 1) (init (some ⟨0, 1, [1]⟩) 1 [.put [5] (.im [1]), .put [6] (.im [1])]) [0, 1, 0, 1]).threads.map (·.loc)
+      = [.done .ok, .done .precondition] := by
+  decide
+
+end Fine
 
 end Pithos.C07
